@@ -84,6 +84,14 @@ NOTES = {  # what a seed taught (checks strengthened because it was first missed
     "C16-11": "first only a broken tie: history independence - every string parsed four times in two fresh interpreters in opposite orders",
     "C19-10": "first only a broken tie: white space outside ASCII between words",
     "C19-11": "first only a broken tie: xml:space set during a first serialization and removed before the second, same node",
+    "C01-14": "first missed: clone=True with a detached offered node (24 fixed cases: inserted node is not the offered one, offered node stays usable)",
+    "C09-14": "first missed: the Document(node) constructor route with attached nodes of document-less trees",
+    "C06-13": "first missed: ancestor axes from several context nodes followed by a child/self step; any duplicate in a result is a failure",
+    "C14-13": "first missed: the document root replaced and put back; old tree, new root and replaced root each addressed within their own tree",
+    "C14-15": "first missed: a tag node behind 2000 comments / PIs (boundary_search)",
+    "C02-15": "first only a broken tie: ']]>' straddling adjacent text nodes in API-built trees",
+    "C16-14": "first only a broken tie: registered extension functions that are not plain Python functions (callable instances, partial, bound method, C callable)",
+    "C18-13": "a namespace name escaped twice in the xmlns declarations: C02's and C13's subject (caught there with failing inputs)",
     "C03-1": "caught as a broken tie; generator bias for preserved nested children that fit the line requested",
 }
 rows = []
